@@ -669,6 +669,7 @@ func TestC16(t *testing.T) {
 		// the state the sweep starts from: the committed state, or (odd iterations) a branch on which one round of
 		// governance-authorised privileged messages has already taken effect (a multi-step history)
 		base = s.Ctx
+		var appliedMsgs []sdk.Msg
 		if it%2 == 1 {
 			bctx, _ := s.Ctx.CacheContext()
 			applied := 0
@@ -677,6 +678,7 @@ func TestC16(t *testing.T) {
 				var err error
 				if res := hx.Try(func() error { _, err = app.MsgServiceRouter().Handler(m)(bctx, m); return nil }); res == "ok" && err == nil {
 					applied++
+					appliedMsgs = append(appliedMsgs, m)
 				}
 			}
 			out.Count(fmt.Sprintf("history:gov-messages-applied:%d", applied))
@@ -704,6 +706,26 @@ func TestC16(t *testing.T) {
 		}
 		if it%3 == 0 {
 			msgs = append(msgs, zeros()...)
+		}
+		// REPLAYS: the very messages governance has just applied on this branch (payloads that describe the CURRENT state: a
+		// handler that skips its check when "nothing changes" or "the set only shrinks" lets a foreign authority re-send
+		// them), whole and with every string list cut down to its first entry
+		for _, am := range appliedMsgs {
+			if c := cloneMsg(am); c != nil {
+				msgs = append(msgs, c)
+				out.Count("replay-of-applied:" + msgKey(am))
+			}
+			v := reflect.ValueOf(am).Elem()
+			for i := 0; i < v.NumField(); i++ {
+				if f := v.Field(i); f.Kind() == reflect.Slice && f.Type().Elem().Kind() == reflect.String && f.Len() > 1 {
+					if c := cloneMsg(am); c != nil {
+						cf := reflect.ValueOf(c).Elem().Field(i)
+						cf.Set(cf.Slice(0, 1))
+						msgs = append(msgs, c)
+						out.Count("replay-of-applied-shrunk:" + msgKey(am) + "." + v.Type().Field(i).Name)
+					}
+				}
+			}
 		}
 		// payloads found to be valid AND effective under governance (one field of a valid payload varied), rotated
 		for _, k := range effKeys {
